@@ -473,6 +473,7 @@ type Task struct {
 	callCovers [][2]*Obligation // per contract application: path reachable before / after assuming the callee's postconditions
 	inlined   map[string]bool
 	contractsUsed map[string]bool
+	rootCon       *FuncContract // the contract this task verifies
 	curFn     string
 	rndApps   [][2]string
 	realInt   map[string]bool
